@@ -38,13 +38,13 @@ impl InFlightCounter {
 /// the duty of one decrement moves into the guard: from here on Rust drops it on every exit path
 #[verifier::external_body]
 pub fn vx_guard<Req, Res, E>(g: InFlightGuard, Tracked(tr): Tracked<&mut Trace<Req, Res, E>>) -> (r: InFlightGuard)
-    requires old(tr).unguarded >= 1,
+    requires old(tr).unguarded >= 1,   // #guard_takes_over_an_existing_in_flight_slot [C13]
     ensures r == g, *final(tr) == (Trace { unguarded: (old(tr).unguarded - 1) as nat, guarded: old(tr).guarded + 1, ..*old(tr) }),
 { unimplemented!() }
 /// drop(guard): runs InFlightGuard::drop (contract proved below on the real Drop impl)
 #[verifier::external_body]
 pub fn vx_drop_guard<Req, Res, E>(g: InFlightGuard, Tracked(tr): Tracked<&mut Trace<Req, Res, E>>)
-    requires old(tr).guarded >= 1,
+    requires old(tr).guarded >= 1,   // #only_a_held_slot_is_released [C13]
     ensures *final(tr) == (Trace { decs: old(tr).decs + 1, guarded: (old(tr).guarded - 1) as nat, ..*old(tr) }),
 { unimplemented!() }
 pub struct PlainAtomicUsize { pub id: Ghost<int> }
@@ -103,6 +103,7 @@ impl<Req, Res, E> AdaptiveService<Req, Res, E> {
         requires old(tr).fresh(),
         ensures
             final(tr).obs_inflight is Some && final(tr).obs_limit is Some,   // #consults_counter_and_algorithm
+            final(tr).incs == 0 && final(tr).decs == 0 && final(tr).unguarded == 0,   // #observing_readiness_does_not_count_a_call [C13]
             final(tr).obs_inflight->0 >= final(tr).obs_limit->0 ==> r is Pending && final(self).inner == old(self).inner,   // #refuses_readiness_at_the_limit_without_touching_inner [C13]
             final(tr).obs_inflight->0 < final(tr).obs_limit->0 ==> final(self).inner.polls@ == old(self).inner.polls@ + 1 && (r is Pending ==> !final(self).inner.ready@ || old(self).inner.ready@),   // #never_refuses_below_the_limit_on_its_own [C13]
             r matches Poll::Ready(Ok(_)) ==> final(self).inner.ready@ && final(tr).obs_inflight->0 < final(tr).obs_limit->0,   // #ready_only_when_inner_ready_and_below_limit [C13,C20]
